@@ -1016,9 +1016,45 @@ ABLATIONS = ["comments-tricky", "comments-all", "builtin-type-names", "special-n
 def edge_schemas() -> List[Tuple[str, Schema]]:
     out: List[Tuple[str, Schema]] = []
 
-    def S(tag: str, pkg: str, msgs=(), enums=(), imports=()):
+    def S(tag: str, pkg: str, msgs=(), enums=(), imports=(), services=()):
         out.append((tag, Schema(files=[File(name="edge.proto", package=pkg, imports=list(imports),
-                                            messages=list(msgs), enums=list(enums))])))
+                                            messages=list(msgs), enums=list(enums), services=list(services))],
+                                features={"edge." + tag: 1})))
+
+    # deterministic feature cover (always part of the quick tier): every label x type-category combination that the
+    # random grammar reaches only with some probability, plus a service with all four cardinalities
+    fc = "edge.cover"
+    R = lambda *path: TypeRef("message", "", fc, tuple(path))
+    E = lambda *path: TypeRef("enum", "", fc, tuple(path))
+    S("feature-cover", fc,
+      imports=[WKT_FILE["Timestamp"], WKT_FILE["Duration"], WKT_FILE["Int32Value"]],
+      enums=[Enum("Color", [("COLOR_UNSPECIFIED", 0), ("COLOR_RED", 1), ("COLOR_NEG", -3)])],
+      msgs=[
+          Message("Leaf", [Field("n", 1, scalar("int32")), Field("s", 2, scalar("string"))]),
+          Message("Tree", [Field("kids", 1, R("Tree"), "repeated"), Field("parent", 2, R("Tree")), Field("leaf", 3, R("Leaf"))]),
+          Message("Cover", [
+              Field("ow_i32", 1, wkt("Int32Value"), "optional"), Field("ow_str", 2, wkt("StringValue"), "optional"),
+              Field("ow_bool", 3, wkt("BoolValue"), "optional"), Field("w_plain", 4, wkt("Int64Value")),
+              Field("rw", 5, wkt("BytesValue"), "repeated"),
+              Field("o_msg", 6, R("Leaf"), "optional"), Field("o_enum", 7, E("Color"), "optional"),
+              Field("o_ts", 8, wkt("Timestamp"), "optional"), Field("o_str", 9, scalar("string"), "optional"),
+              Field("o_i64", 10, scalar("sint64"), "optional"), Field("o_inner", 11, E("Cover", "Kind"), "optional"),
+              Field("m_enum", 12, E("Color"), "map", map_key="string"), Field("m_msg", 13, R("Leaf"), "map", map_key="sint64"),
+              Field("m_inner", 14, E("Cover", "Kind"), "map", map_key="bool"),
+              Field("r_enum", 15, E("Color"), "repeated"), Field("r_dbl", 16, scalar("double"), "repeated"),
+              Field("c_ts", 20, wkt("Timestamp"), oneof="choice"), Field("c_du", 21, wkt("Duration"), oneof="choice"),
+              Field("c_w", 22, wkt("Int32Value"), oneof="choice"), Field("c_msg", 23, R("Leaf"), oneof="choice"),
+              Field("c_str", 24, scalar("string"), oneof="choice"), Field("c_enum", 25, E("Color"), oneof="choice"),
+              Field("from", 30, scalar("int32")), Field("class", 31, scalar("string")), Field("camelCase", 32, scalar("bool")),
+          ], enums=[Enum("Kind", [("KIND_A", 0), ("KIND_B", 2)])]),
+      ],
+      services=[Service("CoverSvc", [
+          Method("UnaryUnary", R("Leaf"), R("Cover")),
+          Method("UnaryStream", R("Leaf"), R("Cover"), False, True),
+          Method("StreamUnary", R("Leaf"), R("Cover"), True, False),
+          Method("StreamStream", R("Cover"), R("Leaf"), True, True),
+          Method("snake_name", R("Tree"), R("Tree")),
+      ])])
 
     # message names that shadow typing names used by the template
     S("typing-name-message", "edge.typingnames", msgs=[
